@@ -4,7 +4,7 @@
 # without it, and which checks report it. Rewrites result.txt. Never touches /repo.
 set -u
 name="$1"
-export GOFLAGS=-mod=mod GOPROXY=off
+export GOFLAGS="-mod=mod -trimpath" GOPROXY=off
 out=/verif/seeded/$name
 T=$(mktemp -d "${TMPDIR:-/tmp}/emcheck-seed-XXXXXX"); trap 'rm -rf "$T"' EXIT
 mkdir -p "$T/with" "$T/without" "$T/verif" "$T/chk"
